@@ -30,7 +30,7 @@ res = {"name": name, "source": f"{src}/m{k}.diff", "base_commit": subprocess.che
 try:
     os.makedirs(f"{wt}/out", exist_ok=True)
     for f in os.listdir(src):
-        if f.startswith(f"m{k}"):
+        if f.startswith(f"m{k}") or f.startswith("_"):      # "_*.py": helper modules shared by a sub-agent's demos
             shutil.copy(os.path.join(src, f), f"{wt}/out/{f}")
     demo = f"/venv/bin/python out/m{k}_demo.py"
     res["demo_exit_clean"] = sh(demo, cwd=wt)[0]
@@ -63,6 +63,9 @@ finally:
     subprocess.run(f"git -C /repo worktree remove --force {wt}", shell=True, capture_output=True)
 shutil.copy(f"{src}/m{k}.diff", f"{dest}/patch.diff")
 shutil.copy(f"{src}/m{k}_demo.py", f"{dest}/demo.py")
+for f in os.listdir(src):
+    if f.startswith("_") and f.endswith(".py"):
+        shutil.copy(os.path.join(src, f), os.path.join(dest, f))
 try:
     meta = json.load(open(f"{src}/m{k}_meta.json"))
 except Exception:
